@@ -225,7 +225,10 @@ def recreateViews (h : Heap) (nodes : List Node) : Except (Err × Heap) Heap :=
     | none => .ok h
     | some parent =>
       match replayFn h n.tensor with
-      | none => .error (.other, h)
+      | none =>
+        -- a stale view child whose creator is no longer a view op (it was itself the target of an in-place
+        -- update after its base's graph had been cleared): `_replay_op` then re-applies that non-view op
+        .error (if (h.t n.tensor).creator.isSome then .unmodelled else .other, h)
       | some (vf, fc) =>
         match opStep h (.view vf) [.t parent] fc with
         | .error e => .error (e, h)
@@ -265,7 +268,7 @@ def inPlaceOp (h : Heap) (roots : List Nat) (self : Nat) (kind : Kind) (inputs :
   let walk : Except Err (Arr × List ViewFn) :=
     path.foldlM (fun (acc : Arr × List ViewFn) n =>
       match replayFn h n.placeholder with
-      | none => .error .other               -- DisconnectedView
+      | none => .error (if (h.t n.placeholder).creator.isSome then .unmodelled else .other)  -- DisconnectedView
       | some (vf, _) =>
         match vf.apply acc.1.d with
         | .error e => .error e
